@@ -131,3 +131,21 @@ Proof.
   intros t Hne Ht. rewrite (Hd t Hne Ht). f_equal. apply rhoZ_pk_ext. apply pk_impl_spec.
 Qed.
 Print Assumptions C06_dense_online.
+
+(* the IA-STL dense-time online PredicateOperation as GENERATED from the Python text (DenseOnlineGen.v, tools/py2coq_denseonline.py):
+   its update is the hand model pred_update_ia with the kind its attributes select, which is pk_impl for the attributes the visitor passes *)
+From RV Require Import PyDense DenseOnlineGen DenseOnlineGenCorrect.
+Import DenseOnlineMon.
+Theorem C06_generated_ia_predicate :
+  forall (VS : Val) (AR : Arith VS) (T : Type) (tltb teqb : T -> T -> bool),
+  (forall st l r, option_map (fun p => (IAPredicate_abs T (fst p), snd p)) (gen_IAPredicate_update AR T tltb teqb st l r)
+                  = pred_update_ia AR T tltb teqb (ia_kind (IAPredicate_semantics st) (IAPredicate_in_vars st) (IAPredicate_out_vars st))
+                      (Predicate_comparison_op (IAPredicate_base st)) (IAPredicate_abs T st) l r) /\
+  (forall c sem iv ov, IAPredicate_abs T (IAPredicate_init T c sem iv ov) = pred_init /\
+                       Predicate_comparison_op (IAPredicate_base (IAPredicate_init T c sem iv ov)) = c /\
+                       IAPredicate_semantics (IAPredicate_init T c sem iv ov) = sem /\
+                       IAPredicate_in_vars (IAPredicate_init T c sem iv ov) = iv /\ IAPredicate_out_vars (IAPredicate_init T c sem iv ov) = ov) /\
+  (forall (io : nat -> bool) (sem : semantics) (f g : formula),
+     ia_kind sem (in_vars_impl io f ++ in_vars_impl io g) (out_vars_impl io f ++ out_vars_impl io g) = pk_impl io sem f g).
+Proof. exact @dense_online_gen_ia_predicate. Qed.
+Print Assumptions C06_generated_ia_predicate.
